@@ -3,6 +3,7 @@
   observation per line on stdout.  Core-only, compiled as `lean_exe drv`.
 -/
 import Driver.GenOps
+import Wsp.Model.Recreate
 import Wsp.Model.World
 import Wsp.Model.Text
 import Wsp.Model.Cmd
@@ -180,14 +181,9 @@ def stepLib0 (st : St) (toks : List String) : Option (St × String) :=
     match st.w.disk with
     | none => return doOp st (.create lay agg (UInt32.ofNat xff))
     | some d =>
-      match newHeader o agg (UInt32.ofNat xff) lay with
+      match recreateHandle o agg (UInt32.ofNat xff) lay d with
       | .error e => return (st, faultStr e)
-      | .ok h =>
-        let size := h.expectedFileSize
-        let disk' : Bytes := d.take size ++ List.replicate (size - d.length) 0
-        match writeAt disk' 0 (encHeader h) with
-        | .error e => return (st, faultStr e)
-        | .ok view => return ({ st with w := ⟨some disk', some ⟨h, view⟩⟩ }, "ok")
+      | .ok (disk', h) => return ({ st with w := ⟨some disk', some h⟩ }, "ok")
   | ["open"] => some (doOp st .open_)
   | ["setdisk", hex] => do
     let b ← bytesOfHex hex
